@@ -5,7 +5,7 @@ from .. import cfgq, parserai
 from ..parserai import SKIP
 
 SKIP_DIRECTIVES = {-1: "CIF_TRAVERSE_SKIP_CURRENT", -2: "CIF_TRAVERSE_SKIP_SIBLINGS"}
-CONTRACT_FUNCS = ("parse_container", "parse_item", "parse_loop")
+CONTRACT_FUNCS = ("parse_container", "parse_item", "parse_loop", "parse_loop_packets")
 
 
 def worlds(prog):
@@ -159,7 +159,8 @@ def run(prog, chk):
                          path=["L%s" % x for x in st.trail_lines()])
         else:
             r4.ok(key, "%d non-failing exits honour the contract" % n_ex)
-    r4.info("parse_loop_packets", "loop-carried pairing keyed on column_index: contract assumed, only the store forms are checked")
+    r4.info("parse_loop_packets", "loop-carried pairing keyed on column_index: the analysis follows the column index as "
+            "first (0) / later (>= 1) to pair the first-value increment with the last-value decrement")
     direct = a.direct_writers
     for fname in sorted(direct):
         fn = prog.fn(fname)
@@ -168,6 +169,10 @@ def run(prog, chk):
                 continue
             op = nn.get("op")
             c = const(nn.get("rhs"))
+            rr = strip(nn.get("rhs"))
+            if c is None and isinstance(rr, dict) and rr.get("k") == "cond" and const(rr.get("then")) in (1, 2) \
+                    and const(rr.get("else")) in (1, 2):
+                c = const(rr.get("then"))      # `d == SIBLINGS ? 2 : 1`: either arm has the directive-driven form
             key = "%s:skip_depth %s %s@L%s" % (fname, op, c, nn.get("l"))
             if op == "=":
                 if c == 0 and "INIT_V2_SCANNER" in (nn.get("ms") or []):
@@ -205,6 +210,7 @@ def run(prog, chk):
                                  "skip_depth %s 1 is not immediately guarded by skip_depth > 0" % op)
             else:
                 r4.violation(fn.file, fname, nn.get("l"), "depth-store-form:" + key, "unexpected store to skip_depth")
+    directive_scope(prog, chk, a)
     r5 = chk.rule("R5-handler-directives", "CIF_TRAVERSE_END and positive (error) handler results leave the production without "
                   "further scanning, storing or callbacks and are returned unchanged (END becomes CIF_OK in parse_cif)", floor=8)
     from . import c03
@@ -213,6 +219,111 @@ def run(prog, chk):
     skip_noninterference(prog, chk)
     chk.extra_cov["contexts"] = {w: len(a2.runs) for w, a2 in W.items()}
     chk.extra_cov["skip_depth_writers"] = sorted(a.writers)
+
+
+# the element whose start/end the production itself reports: a SKIP_SIBLINGS answer from one of these handlers is the only
+# directive whose effect outlasts the production (its caller skips the rest of the parent)
+OWN_HANDLERS = {"parse_container": ("handle_block_start", "handle_block_end", "handle_frame_start", "handle_frame_end"),
+                "parse_item": ("handle_item",),
+                "parse_loop": ("handle_loop_start", "handle_loop_end"),
+                "parse_loop_packets": ("handle_packet_start", "handle_packet_end")}
+
+
+def store_directives(fn, b):
+    """The SKIP directives under which block b's depth store executes: case labels (with fall-through) or the outcome of
+    a comparison with a directive constant.  None if that cannot be told."""
+    heads = _switch_heads(fn)
+    out = set()
+    for lab in fn.blocks.values():
+        if not (lab.label and lab.label.get("k") == "case" and lab.label.get("v") in SKIP_DIRECTIVES):
+            continue
+        # to come back to a store of the same switch from another arm, control has to pass the switch head again
+        if lab.id == b.id or b.id in cfgq.reach(fn, [lab.id], barrier_blocks=heads):
+            out.add(lab.label["v"])
+    if out:
+        return out
+
+    def sel(v):
+        def is_v(cnd):
+            t = cfgq.cmp_test(cnd, lambda e: path(strip(e)) is not None or strip(e).get("k") in ("asg", "call"))
+            if t and t[1] == v:
+                return "true" if t[0] == "==" else ("false" if t[0] == "!=" else None)
+            return None
+        return is_v
+    for v in SKIP_DIRECTIVES:
+        edges = cfgq.guard_edges(fn, sel(v))
+        if edges and cfgq.must_pass_edge(fn, b.id, edges):
+            out.add(v)
+    return out or None
+
+
+def _switch_heads(fn):
+    return {b.id for b in fn.blocks.values() if b.term and b.term.get("k") in ("switch", "SwitchStmt")}
+
+
+def directive_scope(prog, chk, a):
+    r8 = chk.rule("R8-directive-scope", "a production entered not skipping is left skipping (depth 1) exactly when the last depth "
+                  "store on the path answered SKIP_SIBLINGS from a handler of the production's own element (the caller then "
+                  "skips the rest of the parent); every other directive - SKIP_CURRENT, or SKIP_SIBLINGS of a child element "
+                  "such as an item within a packet - has been consumed by the time the production returns (depth 0)", floor=12)
+    from ..parserai import GH_S, GH_SH, GH_D, HANDLER_FIELDS
+    for (fname, ctx), it in sorted(a.runs.items(), key=str):
+        if fname not in OWN_HANDLERS:
+            continue
+        k = ctx[1]
+        if k is None or not k.is_const() or k.value() != 0:
+            continue
+        fn = prog.fn(fname)
+        stores = {n.get("id"): (b, n) for (b, i, r, n) in fn.eval_sites("asg")
+                  if (path(strip(n.get("lhs"))) or "").endswith("skip_depth") and n.get("op") == "="}
+        seen = {}
+        for st, av, node in it.exits:
+            if av is not None and av.nonzero():
+                continue
+            s = st.sigma.get(SKIP)
+            if s is None or not s.is_const():
+                continue                       # R4 reports an exit whose depth is not 0 or 1
+            g = st.sigma.get(GH_S)
+            h = st.sigma.get(GH_SH)
+            dd = st.sigma.get(GH_D)
+            gk = (g.value() if g is not None and g.is_const() else None, h.value() if h is not None and h.is_const() else None,
+                  dd.value() if dd is not None and dd.is_const() else None)
+            seen.setdefault((gk, s.value()), (st, node))
+        for (gk, depth), (st, node) in sorted(seen.items(), key=str):
+            gid, hidx, held = gk
+            if gid is None:
+                want, why, key = 0, "no depth store on the path", "%s:no-store" % fname
+            elif gid == -1:
+                want, why, key = 0, "left skipping by a callee (a child's directive): consumed at the element's end", \
+                    "%s:callee" % fname
+            else:
+                if gid not in stores or hidx is None:
+                    r8.info("%s:store#%s" % (fname, gid), "store or handler not identified: no verdict")
+                    continue
+                b, n = stores[gid]
+                dirs = store_directives(fn, b)
+                hname = HANDLER_FIELDS[hidx]
+                key = "%s:%s:L%s" % (fname, hname, n.get("l"))
+                if dirs and len(dirs) > 1 and held in dirs:
+                    dirs = {held}           # arms sharing the store: the path knows which directive it came with
+                    key += ":" + SKIP_DIRECTIVES[held].replace("CIF_TRAVERSE_", "")
+                if not dirs or len(dirs) != 1:
+                    r8.info(key, "directive of the store not unique (%s): no verdict" % sorted(dirs or []))
+                    continue
+                d = next(iter(dirs))
+                if d == -2 and hname in OWN_HANDLERS[fname]:
+                    want, why = 1, "SKIP_SIBLINGS answered by %s, the production's own element" % hname
+                elif d == -2:
+                    want, why = 0, "SKIP_SIBLINGS answered by %s, a child element: it ends with the enclosing one" % hname
+                else:
+                    want, why = 0, "SKIP_CURRENT answered by %s" % hname
+            if depth != want:
+                r8.violation(fn.file, fname, (stores[gid][1].get("l") if gid in stores else (node.get("l") if node else fn.endline)),
+                             "directive-scope:" + key,
+                             "%s; the production must return with skip_depth %d but a non-failing exit leaves it %d"
+                             % (why, want, depth), path=["L%s" % x for x in st.trail_lines()])
+            else:
+                r8.ok(key + "[%s]" % ctx_str(ctx), "%s: depth %d at the exit" % (why, depth))
 
 
 def ctx_str(ctx):
